@@ -122,6 +122,25 @@ mod verif_kani {
         core::mem::forget(v);
     }
 
+    //@harness props=C08,C12 kind=bounded fns=LuaValue::length bound="ENUMERATED inputs: the strings \"\\xC3\\xA9\" (one 2-byte UTF-8 character), \"\\xFF\" (invalid UTF-8), \"a\\0b\" (embedded NUL)" budget=300
+    //@ desc="`#s` counts BYTES: a definite length of a string with multi-byte, invalid or NUL bytes is its byte length"
+    #[kani::proof]
+    #[kani::unwind(8)]
+    fn vk_value_length_bytes() {
+        let cases: [(&[u8], f64); 3] = [(&[0xC3, 0xA9], 2.0), (&[0xFF], 1.0), (&[b'a', 0, b'b'], 3.0)];
+        let mut i = 0;
+        while i < 3 {
+            let v = LuaValue::String(cases[i].0.to_vec());
+            match v.length() {
+                LuaValue::Number(n) => assert!(n == cases[i].1, "O-val: #s is the byte length"),
+                other => assert!(unknown(&other), "string length is a number or Unknown"),
+            }
+            core::mem::forget(v);
+            i += 1;
+        }
+        kani::cover!(true);
+    }
+
     //@harness props=C08,C12 kind=proof fns=LuaValue::from(bool)
     //@ desc="From<bool>: true -> True, false -> False"
     #[kani::proof]
